@@ -38,7 +38,9 @@ ASSUMPTIONS = [
     "sink contents are compared as (length, 64-bit FNV-1a) pairs, plus the bytes themselves when at most 32",
     "when bytes reach the sink before flush/drop is not constrained (write_all counts are a logged diagnostic only), except that the "
     "debug build is checked to hold nothing pending after each operation (`ub` view)",
-    "BUF_SIZE is read from writer.rs on every run; the theorems hold for every BUF_SIZE >= 39 and that side condition is evaluated",
+    "BUF is determined on every run, best effort: from writer.rs if a generic anchor matches, else observed on the real writer "
+    "(first delivery when single characters are written); it only aims the boundary streams — by the theorems (every BUF >= 39, both "
+    "profiles, every fill level) the delivered bytes do not depend on it. Structural source anchors are evidence notes only",
 ]
 TRUSTED_EXTRA = ["std::io::Write::write_all"]
 MANIFEST = {
@@ -59,63 +61,118 @@ MANIFEST = {
 }
 
 
+def _const_value(expr):
+    """Evaluate the few literal forms a buffer-size constant is written in; None if not understood."""
+    expr = expr.strip().replace("_", "")
+    expr = re.sub(r"(?<=\d)(usize|u32|u64)\b", "", expr)
+    m = re.fullmatch(r"(\d+)\s*<<\s*(\d+)", expr)
+    if m:
+        return int(m.group(1)) << int(m.group(2))
+    if re.fullmatch(r"\d+", expr):
+        return int(expr)
+    m = re.fullmatch(r"(\d+)\s*\*\s*(\d+)", expr)
+    if m:
+        return int(m.group(1)) * int(m.group(2))
+    return None
+
+
+def _buf_from_source(src):
+    """Best-effort, several generic anchors. Returns (value, anchor description) or (None, why)."""
+    consts = {m.group(1): m.group(2) for m in re.finditer(r"^\s*(?:pub\s+)?const\s+(\w+)\s*:\s*usize\s*=\s*([^;]+);", src, flags=re.M)}
+    # (a) the historical name
+    if "BUF_SIZE" in consts and _const_value(consts["BUF_SIZE"]) is not None:
+        return _const_value(consts["BUF_SIZE"]), "source: const BUF_SIZE"
+    # (b) the length of the byte array field of `struct Writer`
+    m = re.search(r"struct\s+Writer\b[^{]*\{(.*?)\n\}", src, flags=re.S)
+    if m:
+        for fm in re.finditer(r"\w+\s*:\s*\[\s*u8\s*;\s*([^\]]+)\]", m.group(1)):
+            ln = fm.group(1).strip()
+            v = _const_value(ln)
+            if v is not None:
+                return v, "source: literal length of Writer's byte-array field"
+            name = ln.split("::")[-1].strip()
+            if name in consts and _const_value(consts[name]) is not None:
+                return _const_value(consts[name]), f"source: const {name} (length of Writer's byte-array field)"
+    # (c) exactly one usize constant with a literal value in the file
+    vals = {k: _const_value(v) for k, v in consts.items() if _const_value(v) is not None}
+    if len(vals) == 1:
+        k, v = next(iter(vals.items()))
+        return v, f"source: const {k} (the only literal usize constant in writer.rs)"
+    return None, "no source anchor matched"
+
+
+def _buf_observed(repo):
+    """Differential fallback: build the release harness against `repo` and ask it at which fill level the real writer delivers
+    for the first time when fed single characters (`e_writer probe`)."""
+    import json
+    import subprocess
+    import sys
+    sys.path.insert(0, os.path.join(os.path.dirname(os.path.dirname(os.path.abspath(__file__))), "tools"))
+    import veriflib as V
+    crate_dir, _root = V.harness_dir(CRATE, repo)
+    ok, out, _ = V.cargo_build(crate_dir, "release")
+    if not ok:
+        return None, "release harness does not build: " + out[-300:]
+    try:
+        r = subprocess.run([os.path.join(crate_dir, "target", "release", CRATE), "probe"], stdout=subprocess.PIPE,
+                           stderr=subprocess.PIPE, text=True, timeout=600)
+        d = json.loads(r.stdout.strip().split("\n")[-1])
+    except Exception as e:  # noqa: BLE001
+        return None, f"probe failed: {e}"
+    v = d.get("first_delivery_len")
+    if isinstance(v, int) and v > 1:
+        return v, "observed: length of the first delivery to the sink when single characters are written (release build)"
+    return None, f"probe inconclusive: {d}"
+
+
 def extract(repo):
-    """BUF_SIZE and the debug-flush discipline, read from writer.rs with anchored patterns."""
-    params, problems = {}, []
+    """Best-effort: BUF (needed only to AIM the boundary streams — by the theorems the delivered bytes do not depend on it) from the
+    source if an anchor matches, else observed differentially; structural anchors are notes, never broken entries. The side
+    condition "no piece can overflow the buffer" (39 <= BUF) is evaluated on whichever BUF was determined and is, besides, checked
+    differentially by the boundary streams (pieces of 38/39/40 bytes at every fill level within 45 of BUF, strings of BUF-1/BUF/BUF+1/3BUF+7)."""
+    params, problems, notes = {}, [], []
     path = os.path.join(repo, "rlib", "io", "src", "writer.rs")
     try:
         src = open(path).read()
     except OSError as e:
         return params, [f"cannot read {path}: {e}"]
-    m = re.search(r"^\s*const\s+BUF_SIZE\s*:\s*usize\s*=\s*([^;]+);", src, flags=re.M)
-    buf = None
-    if not m:
-        problems.append("writer.rs: `const BUF_SIZE: usize = …;` not found")
-    else:
-        expr = m.group(1).strip().replace("_", "")
-        m2 = re.fullmatch(r"(\d+)\s*<<\s*(\d+)", expr)
-        if m2:
-            buf = int(m2.group(1)) << int(m2.group(2))
-        elif re.fullmatch(r"\d+", expr):
-            buf = int(expr)
-        elif re.fullmatch(r"(\d+)\s*\*\s*(\d+)", expr):
-            a, b = re.fullmatch(r"(\d+)\s*\*\s*(\d+)", expr).groups()
-            buf = int(a) * int(b)
-        else:
-            problems.append(f"writer.rs: BUF_SIZE expression not understood: {expr!r}")
-    if buf is not None:
-        params["writer_buf_size"] = buf
-        if buf < 39:
-            problems.append(f"side condition 39 <= BUF_SIZE fails (BUF_SIZE = {buf}): a 39-digit integer no longer fits the buffer")
-        if buf < 64:
-            problems.append(f"BUF_SIZE = {buf} < 64: the generators of this check assume at least 64")
-    if not re.search(r"buf\s*:\s*\[\s*u8\s*;\s*Writer::BUF_SIZE\s*\]", src):
-        problems.append("writer.rs: the buffer is no longer `[u8; Writer::BUF_SIZE]`")
-    if len(re.findall(r"chunks\(\s*Writer::BUF_SIZE\s*\)", src)) != 2:
-        problems.append("writer.rs: strings are no longer chunked by `Writer::BUF_SIZE` in both string instances")
-    # flush-per-write under debug_assertions (`write`, `write_char`): a note only — the flushing policy is not part of the
-    # property (bytes after flush/drop are); the debug build's "nothing pending after an operation" is compared as the `ub` view.
+    buf, how = _buf_from_source(src)
+    if buf is None:
+        notes.append(f"BUF not found in the source ({how}); falling back to differential observation")
+        buf, how = _buf_observed(repo)
+    if buf is None:
+        notes.append(f"BUF could not be observed either ({how}); boundary streams are aimed at the default 65536")
+        buf, how = 65536, "default (neither source anchor nor observation)"
+    params["writer_buf_size"] = buf
+    params["buf_source"] = how
+    if buf < 39:
+        problems.append(f"side condition 39 <= BUF fails (BUF = {buf}, {how}): a 39-digit integer piece cannot fit the buffer")
+    # ---- structural anchors: notes only (the model mirrors this structure; a different structure that delivers the same bytes
+    # is fine for C09 and is judged by the differential run, not here)
+    wsrc = re.sub(r"\s+", " ", src)
+    if not re.search(r"\[\s*u8\s*;\s*Writer::BUF_SIZE\s*\]", src):
+        notes.append("writer.rs: the buffer field is not written `[u8; Writer::BUF_SIZE]`")
+    n_chunks = len(re.findall(r"\.chunks\(", src))
+    if n_chunks != 2:
+        notes.append(f"writer.rs: {n_chunks} `.chunks(` loops (the model mirrors one per string instance)")
     n_dbg = len(re.findall(r"#\[cfg\(debug_assertions\)\]\s*self\.flush\(\);", src))
     params["debug_flush_sites"] = n_dbg
-    params["debug_flush_sites_note"] = "2 expected (write, write_char); informational, not a side condition"
-    # BASE_10_LEN: the macro loop modelled by `base10len` and its use for every integer type
+    if n_dbg != 2:
+        notes.append(f"writer.rs: {n_dbg} `#[cfg(debug_assertions)] self.flush();` sites (model: write, write_char)")
+    if "let mut buf = [0; <$t as FixedSizeInteger>::BASE_10_LEN];" not in wsrc:
+        notes.append("writer.rs: the digit buffer is not written `[0; <$t as FixedSizeInteger>::BASE_10_LEN]`")
     npath = os.path.join(repo, "rlib", "num_traits", "src", "lib.rs")
     try:
         nsrc = re.sub(r"\s+", " ", open(npath).read())
+        loop = ("macro_rules! base_10_len { ($ut:ty) => {{ let mut value = <$ut>::MAX; let mut ans: usize = 0; "
+                "while value != 0 { value /= 10; ans += 1; } ans }}; }")
+        if loop not in nsrc:
+            notes.append("num_traits/lib.rs: `base_10_len!` is not textually the loop modelled by Decimal.base10len")
+        if "fixed_size_integer!($it, $ut, base_10_len!($ut));" not in nsrc:
+            notes.append("num_traits/lib.rs: BASE_10_LEN is not textually `base_10_len!($ut)` for every integer type")
     except OSError as e:
-        return params, problems + [f"cannot read {npath}: {e}"]
-    loop = ("macro_rules! base_10_len { ($ut:ty) => {{ let mut value = <$ut>::MAX; let mut ans: usize = 0; "
-            "while value != 0 { value /= 10; ans += 1; } ans }}; }")
-    if loop not in nsrc:
-        problems.append("num_traits/lib.rs: the `base_10_len!` macro is no longer the loop modelled by Decimal.base10len")
-    if "fixed_size_integer!($it, $ut, base_10_len!($ut));" not in nsrc:
-        problems.append("num_traits/lib.rs: BASE_10_LEN is no longer `base_10_len!($ut)` for every integer type")
-    if "const BASE_10_LEN: usize = $len;" not in nsrc:
-        problems.append("num_traits/lib.rs: `const BASE_10_LEN: usize = $len;` not found")
-    wsrc = re.sub(r"\s+", " ", src)
-    if "let mut buf = [0; <$t as FixedSizeInteger>::BASE_10_LEN];" not in wsrc:
-        problems.append("writer.rs: the digit buffer is no longer `[0; <$t as FixedSizeInteger>::BASE_10_LEN]`")
-    params["base_10_len_macro"] = "loop on <$ut>::MAX"
+        notes.append(f"cannot read {npath}: {e}")
+    params["structure_notes"] = notes if notes else ["all structural anchors of the model match the source text"]
     return params, problems
 
 
@@ -165,6 +222,22 @@ def extra(ctx):
                 if len(d["examples_of_difference"]) < 3:
                     d["examples_of_difference"].append({"case": r["case"][:300], "impl_fl": a, "model_fl": b})
         diag[pipe.profile] = d
+    # cross-check of the BUF the boundary streams were aimed at: what the real (release) writer shows
+    for pipe in ctx["pipes"]:
+        if pipe.profile != "release":
+            continue
+        try:
+            import json
+            import subprocess
+            r = subprocess.run([pipe.bin, "probe"], stdout=subprocess.PIPE, stderr=subprocess.PIPE, text=True, timeout=600)
+            obs = json.loads(r.stdout.strip().split("\n")[-1]).get("first_delivery_len")
+        except Exception as e:  # noqa: BLE001  (diagnostic only)
+            obs = f"probe failed: {e}"
+        ep = ctx["coverage"].setdefault("extracted_params", {})
+        ep["buf_observed"] = obs
+        if isinstance(obs, int) and obs != ctx["params"].get("writer_buf_size"):
+            ep.setdefault("structure_notes", []).append(
+                f"the release writer first delivers at fill level {obs}, the boundary streams were aimed at {ctx['params'].get('writer_buf_size')}")
     ctx["coverage"]["flush_count_diagnostic"] = dict(diag, note="not compared: the flushing policy before flush/drop is not part of C09")
     return []
 
